@@ -687,6 +687,9 @@ func (c *HTTPClient) GetSnapshot(version uint64) (*protocol.Snapshot, error) {
 	if err != nil {
 		return nil, err
 	}
+	if ss.Snapshot == nil {
+		return nil, errors.New("the snapshot store answered without a snapshot")
+	}
 
 	return ss.Snapshot, nil
 }
